@@ -5,6 +5,7 @@ pub mod events;
 pub mod fam;
 pub mod json;
 pub mod mon;
+pub mod peer;
 pub mod prng;
 pub mod runner;
 pub mod sim;
